@@ -34,6 +34,12 @@ CFG = {
         "Swat4.C04.heartbeat_refines",
         "Swat4.C04.step_refines",
         "Swat4.C04.history_is_fold",
+        "Swat4.C04.heartbeat_post_abs",
+        "Swat4.C04.heartbeat_post",
+        "Swat4.C04.removal_post",
+        "Swat4.C04.infoOf_field",
+        "Swat4.C04.infoOf_named",
+        "Swat4.C04.schema_params_pinned",
         "Swat4.C04.facts_ok",
         "Swat4.C04.msg_facts",
     ],
@@ -52,16 +58,20 @@ CFG = {
         "storage is healthy (no injected faults) and one logical process runs at a time: repository calls are atomic (that is C09's theorem)",
         "JSON (de)serialisation of stored records is the identity on what the reporter stores (valid UTF-8 after ToValidUTF8)",
         "clock values are Epoch + k*256ns so that float64 scores are exact (A-time)",
-        "the reading of info values (Heartbeat.infoOf: Atoi, 0/1/true/false, validator tags required/gt/gte/ratio) is shared by model and spec",
+        "the reading of info values (Heartbeat.infoOf: Atoi, 0/1/true/false, validator tags required/gt/gte/ratio) is shared by model and spec; "
+        "what it does is pinned independently of that sharing: infoOf_field/infoOf_named (every value of an accepted info is the reading, by the "
+        "field's kind, of what was reported under the field's own param key; zero value when absent) and schema_params_pinned (the generated "
+        "field<->key table equals a literal list written from info.go: a swapped param tag breaks the proof); the validator tags themselves "
+        "(which reports are REJECTED) remain shared and are tied to the code by the differential run only",
     ],
     "trusted_base": COMMON_TRUSTED + [
         "generated Facts.lean section `reporter` (reflection over details.Info, go/ast over isReportableField / IsQueryField)",
         "miniredis as the meaning of the Redis commands; world.Dump as the canonical observation of the keyspace",
     ],
     "manifest": {
-        "text": "Lean model of the reporter dispatcher, the four handlers, the heartbeat scanner, addr.New, params.Unmarshal + validator over the generated details.Info schema, composed with the report/renew/remove use cases over the abstract registry; theorems about reply bytes, scanner round trip and refinement of ReporterSpec.absStep; tied to the code by comparing outcome and full canonical store dump after every datagram of generated histories.",
+        "text": "Lean model of the reporter dispatcher, the four handlers, the heartbeat scanner, addr.New, params.Unmarshal + validator over the generated details.Info schema, composed with the report/renew/remove use cases over the abstract registry; theorems about reply bytes, scanner round trip and refinement of ReporterSpec.absStep, plus the registry postcondition of an accepted heartbeat stated directly (heartbeat_post / Rep.HeartbeatPost: server row at (source IP, hostport) with the reported info, master|info set, new cleared, refreshedAt = updatedAt = now, instance id bound to it at now, port probe <addr, addr.port, port, 0, maxRetries> queued with ready = now unless port/port_retry was set, every other server and instance entry unchanged) and the value-by-value reading of the reported info (infoOf_field, infoOf_named, schema_params_pinned); a concrete heartbeat is shown accepted from the empty store (one server, one instance, one probe); tied to the code by comparing outcome and full canonical store dump after every datagram of generated histories.",
         "level_note": "Trusted: Lean kernel; axioms propext, Quot.sound, Classical.choice; ReporterSpec (encodeHeartbeat/WfHeartbeat/absStep) as the reading of the property text; the finite differential run as evidence that Model/Heartbeat.lean + UseCases/Reporter.lean behave like the Go code; generated Facts.lean.",
-        "technique": "Lean 4 proof (refinement of an abstract registry step, scanner round trip) + differential correspondence on histories",
+        "technique": "Lean 4 proof (refinement of an abstract registry step, scanner round trip, direct postcondition, field-by-field info reading) + differential correspondence on histories",
         "design_ref": "DESIGN.md §5 C04",
     },
 }
